@@ -273,7 +273,7 @@ fn explain_case(cx: &mut Ctx, prog: &pipe::Prog) {
     use pipe::Coll;
     let p = Pipeline::default();
     let c = pipe::build(&p, prog);
-    let id = match &c { Coll::T(x) => x.node_id(), Coll::KV(x) => x.node_id(), Coll::KG(x) => x.node_id() };
+    let id = match &c { Coll::T(x) => x.node_id(), Coll::KV(x) => x.node_id(), Coll::KG(x) => x.node_id(), Coll::R(x) => x.node_id() };
     let plan = match ironbeam::planner::build_plan(&p, id) { Ok(pl) => pl, Err(_) => return };
     let ex = plan.explain();
     let kinds: Vec<String> = plan.chain.iter().map(|n| match n {
